@@ -389,9 +389,16 @@ def stepCanister (d : DState) (ws : List String) : DState × String :=
       (d, s!"info={h}/{hash64 tip.hash}/{tip.blk.time}/{tip.blk.diff} utxos={h}/{hash64 tip.hash} headers={h}/{tip.blk.header} balance={bal}")
   | ["sumat", addr, c], some s =>
     -- C05: the balance for the same request (compared with the sum of the reported UTXOs)
-    match s.getBalance (.ok (strBytes addr)) ((optNat c).getD 0) with
-    | .ok v => (d, toString v)
-    | other => (d, showBalance other)
+    -- implementation column: get_balance; specification column: the sum over get_utxos for the
+    -- same request (whose pages are compared with the implementation's on the `q utxosall` line)
+    let bal := match s.getBalance (.ok (strBytes addr)) ((optNat c).getD 0) with
+      | .ok v => toString v
+      | other => showBalance other
+    let filter : State.UtxosFilter := match optNat c with | some k => .minConf k | none => .none_
+    let spec := match s.getUtxos (.ok (strBytes addr)) filter Btc.Gen.maxUtxosPerResponse with
+      | .ok r => toString ((r.utxos.map (·.value)).foldl (· + ·) 0)
+      | other => showUtxosResult other
+    (d, bal ++ " ## " ++ spec)
   | ["cutat", addr, c], some s =>
     -- C04: the block named by min_confirmations = c and the ledger state there
     let best := Spec.bestPath CBlock.diff s.unstable.tree
